@@ -190,7 +190,7 @@ func runC11(env *core.Env, ci any) {
 		openAtReturn = nil
 		for _, ep := range n.Endpoints() {
 			st := ep.State()
-			if !st.Closed && !st.Dialer && strings.HasPrefix(st.Local, ipSUT+":") { // accepted sockets only: the statement does not cover dialled ones
+			if !st.Closed && !st.Dialer && st.HandedOut && strings.HasPrefix(st.Local, ipSUT+":") { // sockets the proxy accepted (not ones still in the listen backlog, not dialled ones)
 				openAtReturn = append(openAtReturn, st.ID)
 			}
 		}
